@@ -146,6 +146,12 @@ pub fn run(args: &[String]) {
     id += 1;
   }
   api_observations();
+  // automatic poling period in a crystal SHORTER than the period that phase-matches: collinear signal, the needed period
+  // 2 pi / |delta k_z| computed through the public API on a long crystal, then lengths just below it (and one that fits)
+  for j in short_crystal_cases(&mut rng) {
+    emit(observe_config(id, 101, vec!["auto_period:crystal_vs_needed_period".to_string()], j, false));
+    id += 1;
+  }
   let mut calls_done = 0usize;
   for k in 0..n {
     let mal = mal_class(k);
@@ -160,6 +166,40 @@ pub fn run(args: &[String]) {
     emit(o);
     id += 1;
   }
+}
+
+pub fn short_crystal_cases(rng: &mut Rng) -> Vec<Value> {
+  let mut out = vec![];
+  let cr = crystals();
+  let mut tries = 0;
+  while out.len() < 24 && tries < 200 {
+    tries += 1;
+    let c = &cr[rng.below(cr.len())];
+    let (lp, ls) = pick_wavelengths(rng, c);
+    let ty = rng.below(5);
+    let theta = short(match rng.below(3) { 0 => 90., _ => rng.range(20., 90.) });
+    let base = json!({
+      "crystal": {"kind": c.id, "pm_type": PM_FORMS[ty][rng.below(8)], "phi_deg": 0, "theta_deg": theta, "length_um": 50000, "temperature_c": 20},
+      "pump": {"wavelength_nm": lp, "waist_um": 100, "bandwidth_nm": 1.0, "average_power_mw": 1},
+      "signal": {"wavelength_nm": ls, "phi_deg": 0, "theta_deg": 0, "waist_um": 100},
+      "periodic_poling": {"poling_period_um": "auto"}, "deff_pm_per_volt": 1.0
+    });
+    let cfg = match serde_json::from_value::<SPDCConfig>(base.clone()) { Ok(c) => c, Err(_) => continue };
+    let cs0: CrystalSetup = cfg.crystal.clone().into();
+    let pump = cfg.pump.clone().as_beam(&cs0);
+    let signal = match guarded_loc(|| cfg.signal.clone().try_as_beam(&cs0)) { Ok(Ok(s)) => s, _ => continue };
+    let z = match dkz0(&signal, &pump, &cs0) { Some(z) if z.is_finite() && z != 0. => z, _ => continue };
+    let need_um = (std::f64::consts::TAU / z).abs() * 1e6;
+    if !(need_um > 3. && need_um < 20000.) {
+      continue;
+    }
+    for f in [0.98, 0.9, 0.6, 0.25, 1.5] {
+      let mut j = base.clone();
+      j["crystal"]["length_um"] = json!(short((need_um * f - if f < 1. { 2.0 } else { 0. }).max(0.5)));
+      out.push(j);
+    }
+  }
+  out
 }
 
 /// The lambda_s <= lambda_p error at the Beam / IdlerBeam / SPDC API level (below the configuration's own validation)
